@@ -352,7 +352,8 @@ pub fn unwrap_parts(src: &str, open: (usize, usize), close: (usize, usize)) -> R
     let cs = src[..close.0].rfind('\n').map(|p| p + 1).unwrap_or(0);
     let ce = src[close.1..].find('\n').map(|p| p + close.1).unwrap_or(src.len());
     let Some(le) = le else {
-        return Err("unwrap-tags-not-alone");
+        // no line break after the opening tag: the whole element sits on the last line
+        return Ok(None);
     };
     if le >= close.0 {
         // whole element on a single line: untouched
